@@ -466,7 +466,8 @@ impl MpsModel {
         };
         if !rhs.is_empty() || lay.empty_sections {
             lines.push("RHS".into());
-            pairs(&mut rng, &mut lines, "RHS1", &rhs, 1);
+            let set = *rng.pick(&["RHS1", "RHS", "B", "*RHS*"]);
+            pairs(&mut rng, &mut lines, set, &rhs, 1);
             noise(&mut rng, &mut lines);
         }
         let mut rngs: Vec<(String, f64)> = self.rows.iter().filter_map(|r| r.range.map(|v| (r.name.clone(), v.0))).collect();
@@ -475,12 +476,14 @@ impl MpsModel {
         }
         if !rngs.is_empty() || (lay.empty_sections && lay.seed & 4 == 4) {
             lines.push("RANGES".into());
-            pairs(&mut rng, &mut lines, "RNG1", &rngs, 2);
+            let set = *rng.pick(&["RNG1", "RANGES", "*R"]);
+            pairs(&mut rng, &mut lines, set, &rngs, 2);
             noise(&mut rng, &mut lines);
         }
         let has_bounds = self.cols.iter().any(|c| !c.bounds.is_empty());
         if has_bounds || lay.empty_sections {
             lines.push("BOUNDS".into());
+            let bnd_set = *rng.pick(&["BND1", "BOUND", "*B"]);
             let t = target(corrupt, 3);
             let mut k = 0usize;
             for (ci, c) in self.cols.iter().enumerate() {
@@ -489,7 +492,7 @@ impl MpsModel {
                     if corrupt == Some(&Corrupt::BoundType(ci, bi)) {
                         ty = "XX".into();
                     }
-                    let mut fields = vec![ty, "BND1".to_string(), c.name.clone()];
+                    let mut fields = vec![ty, bnd_set.to_string(), c.name.clone()];
                     if bt.has_value() {
                         let s = num(&mut rng, v.0);
                         fields.push(bad_number_apply(&t, 3, &mut k, s));
@@ -536,8 +539,9 @@ fn bad_number_apply(target: &Option<Corrupt>, sec: u8, k: &mut usize, s: String)
     s
 }
 
-const COL_NAMES: [&str; 17] = ["x", "x1", "y.2", "COL.A", "7", "42", "OMMX_VAR_3", "OMMX_VAR_x", "z_", "Var[1,2]", "a-b", "OMMX_VAR_10", "w", "x10", "変数1", "naïve", "x°"];
-const ROW_NAMES: [&str; 14] = ["c1", "LIM.1", "17", "R2", "OMMX_CONSTR_5", "cap(3)", "r", "MYEQN", "row-3", "0", "OMMX_CONSTR_a", "lim2", "制約", "é1"];
+// incl. names that merely look like syntax: a leading '*' (only a '*' in column 1 starts a comment), section keywords
+const COL_NAMES: [&str; 21] = ["x", "x1", "y.2", "COL.A", "7", "42", "OMMX_VAR_3", "OMMX_VAR_x", "z_", "Var[1,2]", "a-b", "OMMX_VAR_10", "w", "x10", "変数1", "naïve", "x°", "*Y", "RHS", "BOUNDS", "MARKER"];
+const ROW_NAMES: [&str; 17] = ["c1", "LIM.1", "17", "R2", "OMMX_CONSTR_5", "cap(3)", "r", "MYEQN", "row-3", "0", "OMMX_CONSTR_a", "lim2", "制約", "é1", "*r", "ENDATA", "ROWS"];
 
 pub fn gen_model(rng: &mut Rng) -> MpsModel {
     let nrows = *rng.pick(&[0usize, 1, 1, 2, 2, 3, 4, 5]);
